@@ -218,6 +218,15 @@ def main():
             rec["inputs_untouched"] = rec["inputs_untouched"] and (ds_fingerprint(left), ds_fingerprint(right)) == (fp_l, fp_r)
         except ZeroDivisionError:
             rec["skipped"] = "ZeroDivisionError (C06 finding: quadratic refinement on a flat cost curve)"
+        except Exception as exc:  # pylint: disable=broad-except
+            # the first run completed (hash_all is there) and a repetition on the same inputs raised: the repetition is
+            # not identical; every clause not yet established counts as failed, and the inputs are fingerprinted again
+            if "hash_all" not in rec:
+                raise
+            rec["raised_on_repetition"] = f"{type(exc).__name__}: {str(exc)[:200]}"
+            for clause in ("rerun_identical", "other_machines_no_effect", "fresh_vs_used_machine"):
+                rec.setdefault(clause, False)
+            rec["inputs_untouched"] = rec.get("inputs_untouched", True) and (ds_fingerprint(left), ds_fingerprint(right)) == (fp_l, fp_r)
         print(json.dumps(rec), flush=True)
 
 
